@@ -371,4 +371,7 @@ pub struct Plan {
     pub immediate_mask: Vec<bool>,
     /// enumerated sequence of external events (C13X); empty = external events are drawn
     pub ext_script: Vec<ExtStep>,
+    /// the peer writes the script steps from this index on in one go (no delivery in between): they reach
+    /// the endpoint in a single read
+    pub glue_from: Option<usize>,
 }
